@@ -574,3 +574,7 @@ def run(ctx, res):
     rule_order(ctx, res)
     rule_indentwidth(ctx, res)
     cli.rule_wiring(ctx, res, 'luafmt', only_options={'indentwidth'})
+    # a handler that does not echo every token of its node makes the
+    # formatter fail on that program (shared with C09)
+    from . import c09eval
+    c09eval.report(ctx, res, rule='R-C10-bracket')
